@@ -338,6 +338,35 @@ class AtLeast(puan.Proposition):
             )
         )
 
+    def _variable_definitions(self) -> typing.Set[typing.Tuple[str, typing.Tuple[int, int]]]:
+
+        """
+            Returns all different pairs of id and bounds, of this proposition's
+            variable and of all variables of its sub propositions.
+
+            Examples
+            --------
+                >>> sorted(All(*"ab", variable="A")._variable_definitions())
+                [('A', (0, 1)), ('a', (0, 1)), ('b', (0, 1))]
+
+            Returns
+            -------
+                out : Set[Tuple[str, Tuple[int, int]]]
+        """
+        return set(
+            itertools.chain(
+                [(self.id, self.bounds.as_tuple())],
+                map(
+                    lambda x: (x.id, x.bounds.as_tuple()),
+                    self.atomic_propositions,
+                ),
+                *map(
+                    operator.methodcaller("_variable_definitions"),
+                    self.compound_propositions,
+                ),
+            )
+        )
+
     def errors(self) -> typing.List[PropositionValidationError]:
 
         """
@@ -395,52 +424,18 @@ class AtLeast(puan.Proposition):
 
                     # Checks that every node's variable with some id also has
                     # the same bounds. Otherwise, there is an ambivalent variable definition.
+                    # Ids and bounds are compared as they are (not their hashes), since
+                    # different bounds may share hash.
                     maz.compose(
-                        operator.not_,
-                        functools.partial(
-                            maz.invoke,
-                            operator.eq,   
+                        lambda definitions: len(definitions) != len(
+                            set(
+                                map(
+                                    operator.itemgetter(0), 
+                                    definitions
+                                )
+                            )
                         ),
-                        maz.fnmap(
-                            maz.compose(
-                                len,
-                                set,
-                                functools.partial(map, hash),
-                                itertools.chain.from_iterable,
-                                maz.fnmap(
-                                    functools.partial(
-                                        filter,
-                                        lambda x: issubclass(
-                                            x.__class__, 
-                                            puan.variable
-                                        ),
-                                    ),
-                                    maz.compose(
-                                        functools.partial(
-                                            map,
-                                            operator.attrgetter("variable"),
-                                        ),
-                                        functools.partial(
-                                            filter,
-                                            lambda x: not issubclass(
-                                                x.__class__, 
-                                                puan.variable
-                                            ),
-                                        )
-                                    )
-                                ),
-                                operator.methodcaller("flatten")
-                            ),
-                            maz.compose(
-                                len,
-                                set,
-                                functools.partial(
-                                    map, 
-                                    operator.attrgetter("id")
-                                ),
-                                operator.methodcaller("flatten")
-                            ),
-                        )
+                        operator.methodcaller("_variable_definitions"),
                     ),
 
                     # Checks only compound propositions if there exist
